@@ -593,13 +593,21 @@ class NumericLiteral(Expr):
                 raise ValueError(
                     'Illegal number (does not fit in LONG)')
         elif literal_type == Type.SINGLE:
-            # check if it fits in a 32-bit float
+            # check if it fits in a 32-bit float (float() turns a
+            # numeral beyond the DOUBLE range into infinity, which
+            # struct.pack accepts)
             import struct
             try:
+                if value in (float('inf'), float('-inf')):
+                    raise OverflowError
                 struct.pack('>f', value)
             except OverflowError:
                 raise ValueError(
                     'Illegal number (does not fit in SINGLE)')
+        elif literal_type == Type.DOUBLE:
+            if value in (float('inf'), float('-inf')):
+                raise ValueError(
+                    'Illegal number (does not fit in DOUBLE)')
 
         return cls(value, literal_type)
 
